@@ -784,10 +784,40 @@ def call_repo(eng, qualname, args, kwargs, st, node):
                 except ContractError:
                     continue
     if c is None:
+        if _tiny_pure_helper(fdef) and not any(vq.startswith(qualname + '#') for vq in S.CONTRACTS):
+            # a small helper extracted by a maintainer (straight-line, no loops, no stores through references): executed in
+            # place, exactly as if its body still stood at the call site
+            eng.assumed.add("helper %s has no contract: its straight-line body is inlined at the call site" % qualname)
+            return inline_body(eng, mod, fdef, args, kwargs, st, node)
         raise ContractError("call to %s which has no (matching) contract" % qualname)
     if c.inline:
         return inline_body(eng, mod, fdef, args, kwargs, st, node)
     return apply_contract(eng, c, mod, fdef, args, kwargs, st, node)
+
+
+def _tiny_pure_helper(fdef):
+    """straight-line function: (docstring,) simple assignments to local names, (conditional) returns of expressions"""
+    body = list(fdef.body)
+    if body and isinstance(body[0], ast.Expr) and isinstance(body[0].value, ast.Constant) and isinstance(body[0].value.value, str):
+        body = body[1:]
+    if not body or len(body) > 8 or fdef.decorator_list:
+        return False
+
+    def simple(stmts):
+        for s in stmts:
+            if isinstance(s, ast.Return):
+                continue
+            if isinstance(s, (ast.Assign, ast.AnnAssign)):
+                tg = s.targets if isinstance(s, ast.Assign) else [s.target]
+                if all(isinstance(t, ast.Name) for t in tg):
+                    continue
+                return False
+            if isinstance(s, ast.If) and simple(s.body) and simple(s.orelse):
+                continue
+            return False
+        return True
+    return simple(body) and not any(isinstance(n, (ast.For, ast.While, ast.Try, ast.With, ast.Global, ast.Nonlocal, ast.Lambda,
+                                                   ast.Yield, ast.YieldFrom, ast.Await)) for n in ast.walk(fdef))
 
 
 def construct(eng, cname, args, kwargs, st, node):
